@@ -7,6 +7,8 @@
 (*  [ev |-> "outcome", kind, i, n, cls, raised, arc, retry]  one real run with     *)
 (*       effect i (of n; cls = "effect" | "member" | "compute" | "kbdint" | "sysexit" | "genexit": *)
 (*       the last three are interruptions at a computation step) failing            *)
+(*       cls = "bulk": the i-th bulk transfer of the standard library fails (ENOSPC); world = "same" | "xdev":   *)
+(*       where the temporary area lives relative to the output folder                *)
 (*  [ev |-> "coverage", kind, cls, n, done]  which fault points were executed       *)
 EXTENDS Naturals, Sequences, FiniteSets, Json, IOUtils, TLC, TLCExt
 CONSTANT AtomicClose
